@@ -77,7 +77,25 @@ inductive Qry where
   | qExt (n : Nat)                -- QueryIds  ext = "x<n>"             (NewStringFuncSymbol: id ↦ nil if id % 4 = 3, else "x<id % 3>")
   | vEven (a b : Nat)             -- even.Eval(tx, a<a>) held, even.Eval(tx', a<b>) in a second read transaction, then both decoded
   | vExt (a b : Nat)              -- the same for ext; 9 codes nil
+  -- round 3: nested elements of two map symbols (tags: bucket prefix ext/meta, attrs: prefix ext/meta/deep)
+  | qMap (k v : Nat)              -- QueryIds  <mapKeyName k> = "s<v>"
+  | iMap (ka kb id : Nat)         -- A := GetSymbol(<name ka>); B := GetSymbol(<name kb>); A.Eval(tx, a<id>), B.Eval(tx, a<id>) decoded; 9 = nil
   deriving DecidableEq, Repr
+
+/-- the value the harness stores under nested map key number `k` for an entity of rank `r` (as "s<value>"):
+    0 tags.site.name, 1 tags.site.zone, 2 tags.owner.name, 3 tags.a.b.c, 4 attrs.a.b.c, 5 attrs.a.x.c, 6 attrs.site.name,
+    7 attrs.owner.name -/
+def mapVal (k r : Nat) : Nat :=
+  match k with
+  | 0 => r % 3
+  | 1 => (r + 1) % 3
+  | 2 => (r + 2) % 3
+  | 3 => r % 2
+  | 4 => (r + 1) % 2
+  | 5 => (2 * r) % 3
+  | 6 => (r + 1) % 3
+  | 7 => r % 3
+  | _ => 9
 
 /-- the externally computed symbols of the harness' store: pure functions of the row id -/
 def extEven (id : Nat) : Bool := id % 2 == 0
@@ -115,6 +133,8 @@ def evalQ (q : Qry) (v : Ver) : List Nat :=
   | .qExt n => (v.filter (fun e => extStr e.id == some n)).map (·.id)
   | .vEven a b => [if extEven a then 1 else 0, if extEven b then 1 else 0]
   | .vExt a b => [extStrCode a, extStrCode b]
+  | .qMap k val => (v.filter (fun e => mapVal k e.rank == val)).map (·.id)
+  | .iMap ka kb id => match findEnt id v with | some e => [mapVal ka e.rank, mapVal kb e.rank] | none => [9, 9]
 
 /-- the committed transactions of a case (aborted ones contribute nothing) -/
 def committedTxs (txs : List (Bool × List WOp)) : List (List WOp) :=
